@@ -146,27 +146,44 @@ Section Proofs.
     - destruct (bytes_eqb x name); [|discriminate]. intro H. inversion H; subst. exists x. left. reflexivity.
   Qed.
 
-  (** a call made by the walk: of a field selection in scope [P] or in a fragment of the document, on
-      what CoerceArgumentValues returned for that selection, and the cost function answered *)
-  Definition good (P : afield C -> Prop) (c : call C) : Prop :=
-    (P (c_field c) \/ exists p, In p frs /\ field_in C (snd p) (c_field c)) /\
+  (** a call made by the walk: of a field selection of a node REACHED from one of the roots [R] (the
+      roots themselves, the definitions of fragments spread inside reached nodes), on what
+      CoerceArgumentValues returned for that selection, and the cost function answered *)
+  Definition from (R : anode C -> Prop) (f : afield C) : Prop :=
+    exists r m, R r /\ reached C frs r m /\ field_in C m f.
+
+  Definition good (R : anode C -> Prop) (c : call C) : Prop :=
+    from R (c_field c) /\
     coerce_argument_values all_fixed E dt (af_argdefs (c_field c)) (af_args (c_field c)) vv = Ok (c_args c) /\
     exists g, af_cost (c_field c) = Some g /\ g (c_ctx c) (c_args c) <> None.
 
-  Lemma good_mono (P Q : afield C -> Prop) c : (forall f, P f -> Q f) -> good P c -> good Q c.
+  Lemma good_mono (P Q : anode C -> Prop) c : (forall f, from P f -> from Q f) -> good P c -> good Q c.
+  Proof. intros H (Hp & H2 & H3). split; [apply H; exact Hp|split; assumption]. Qed.
+
+  Lemma reached_trans a b c : reached C frs a b -> reached C frs b c -> reached C frs a c.
   Proof.
-    intros H ([Hp|Hf] & H2 & H3); (split; [|split; assumption]); [left; apply H; exact Hp|right; exact Hf].
+    intros Hab Hbc. induction Hbc as [|n name def Hbn IH Hs Hl]; [exact Hab|].
+    eapply R_spread; eassumption.
   Qed.
 
-  Lemma good_frag (P : afield C -> Prop) (def : anode C) (x : bytes) c :
-    In (x, def) frs -> good (field_in C def) c -> good P c.
+  Lemma reached_kid k kids x m : In x kids -> reached C frs x m -> m = x \/ reached C frs (ANode k kids) m.
   Proof.
-    intros Hin ([Hp|Hf] & H2 & H3); (split; [|split; assumption]); right; [|exact Hf].
-    exists (x, def). split; [exact Hin|exact Hp].
+    intros Hx H. induction H as [|n name def Hxn IH Hs Hl]; [left; reflexivity|].
+    right. destruct IH as [->|IH].
+    - eapply R_spread; [apply R_root|eapply SI_kid; eassumption|exact Hl].
+    - eapply R_spread; eassumption.
+  Qed.
+
+  Lemma from_kids k kids f : from (fun r => In r kids) f -> from (eq (ANode k kids)) f.
+  Proof.
+    intros (r & m & Hr & Hm & Hf). exists (ANode k kids). 
+    destruct (reached_kid k kids r m Hr Hm) as [->|H].
+    - exists (ANode k kids). split; [reflexivity|]. split; [apply R_root|eapply FI_kid; eassumption].
+    - exists m. split; [reflexivity|]. split; assumption.
   Qed.
 
   (** traced result against plain result *)
-  Definition agrees (P : afield C -> Prop) (log : list (call C))
+  Definition agrees (P : anode C -> Prop) (log : list (call C))
              (t : M.res (M.state C * list (call C))) (r : M.res (M.state C)) : Prop :=
     match t with
     | M.Ok (st', log') => r = M.Ok st' /\ exists new, log' = log ++ new /\ Forall (good P) new
@@ -174,12 +191,11 @@ Section Proofs.
     | M.OutOfFuel => r = M.OutOfFuel
     end.
 
-  Definition in_kids (kids : list (anode C)) (f : afield C) : Prop := exists x, In x kids /\ field_in C x f.
 
   Definition node_spec (fuel : nat) (n : anode C) : Prop :=
-    forall st log, agrees (field_in C n) log (tv fuel n st log) (vis fuel (compile C E dt vv n) st).
+    forall st log, agrees (eq n) log (tv fuel n st log) (vis fuel (compile C E dt vv n) st).
   Definition list_spec (fuel : nat) (l : list (anode C)) : Prop :=
-    forall st log, agrees (in_kids l) log (tvl fuel l st log) (visl fuel (map (compile C E dt vv) l) st).
+    forall st log, agrees (fun r => In r l) log (tvl fuel l st log) (visl fuel (map (compile C E dt vv) l) st).
 
   Lemma list_from_nodes fuel l : Forall (node_spec fuel) l -> list_spec fuel l.
   Proof.
@@ -195,15 +211,15 @@ Section Proofs.
         exists (new1 ++ new2). split; [symmetry; apply app_assoc|].
         apply Forall_app. split.
         * eapply Forall_impl; [|exact Hg1]. intros c Hc. eapply good_mono; [|exact Hc].
-          intros f Hf. exists x. split; [left; reflexivity|exact Hf].
+          intros f (r & m & <- & Hm & Hf). exists x, m. split; [left; reflexivity|split; assumption].
         * eapply Forall_impl; [|exact Hg2]. intros c Hc. eapply good_mono; [|exact Hc].
-          intros f (y & Hy & Hf). exists y. split; [right; exact Hy|exact Hf].
+          intros f (r & m & Hr & Hm & Hf). exists r, m. split; [right; exact Hr|split; assumption].
       + rewrite Hx. reflexivity.
       + rewrite Hx. reflexivity.
   Qed.
 
   (** the switch agrees *)
-  Definition switch_agrees (P : afield C -> Prop) (log : list (call C))
+  Definition switch_agrees (P : anode C -> Prop) (log : list (call C))
              (t : M.res (M.state C * Z * C * list (call C))) (r : M.res (M.state C * Z * C)) : Prop :=
     match t with
     | M.Ok (st1, nm, nc, log1) => r = M.Ok (st1, nm, nc) /\ exists new, log1 = log ++ new /\ Forall (good P) new
@@ -211,13 +227,13 @@ Section Proofs.
     | M.OutOfFuel => r = M.OutOfFuel
     end.
 
-  Lemma nil_new (P : afield C -> Prop) (log : list (call C)) : exists new, log = log ++ new /\ Forall (good P) new.
+  Lemma nil_new (P : anode C -> Prop) (log : list (call C)) : exists new, log = log ++ new /\ Forall (good P) new.
   Proof. exists []. split; [symmetry; apply app_nil_r|constructor]. Qed.
 
   Lemma switch_spec fuel :
     (forall fuel', (fuel' < fuel)%nat -> forall n, node_spec fuel' n) ->
     forall k kids st multiplier ctx log,
-      switch_agrees (field_in C (ANode k kids)) log (tafter fuel k st multiplier ctx log)
+      switch_agrees (eq (ANode k kids)) log (tafter fuel k st multiplier ctx log)
                     (CostProofs.after_switch C skip_zero dc cfrs fuel (ckind k) st multiplier ctx).
   Proof.
     intros IHfuel k kids st multiplier ctx log.
@@ -231,7 +247,8 @@ Section Proofs.
           split; [reflexivity|].
           exists [{| c_field := f; c_ctx := ctx; c_args := m |}]. split; [reflexivity|].
           constructor; [|constructor].
-          split; [left; constructor|]. split; [exact Em|].
+          split; [exists (ANode (AField f) kids), (ANode (AField f) kids); split; [reflexivity|split; [apply R_root|constructor]]|].
+          split; [exact Em|].
           exists g. split; [exact Eg|]. cbn [c_ctx c_args]. rewrite Egc. discriminate.
         * cbn [switch_agrees]. split; [reflexivity|apply nil_new].
       + split; [reflexivity|apply nil_new].
@@ -248,8 +265,11 @@ Section Proofs.
       destruct (tv fuel' def (M.set_path C st (name :: M.st_path C st)) log) as [[st1 log1]| |]; cbn [switch_agrees].
       + destruct H as (Hv & new & -> & Hg). rewrite Hv. split; [reflexivity|].
         exists new. split; [reflexivity|].
-        destruct (alookup_last_in frs name def El) as [x Hx].
-        eapply Forall_impl; [|exact Hg]. intros c Hc. eapply (good_frag _ def x); eassumption.
+        eapply Forall_impl; [|exact Hg]. intros c Hc. eapply good_mono; [|exact Hc].
+        intros f (r & m & <- & Hm & Hf).
+        exists (ANode (ASpread name) kids), m. split; [reflexivity|]. split; [|exact Hf].
+        eapply reached_trans; [|exact Hm].
+        eapply R_spread; [apply R_root|apply SI_here|exact El].
       + rewrite H. reflexivity.
       + rewrite H. reflexivity.
     - cbn [CostProofs.after_switch switch_agrees]. split; [reflexivity|apply nil_new].
@@ -276,7 +296,7 @@ Section Proofs.
           split; [reflexivity|]. exists (new1 ++ new2). split; [symmetry; apply app_assoc|].
           apply Forall_app. split; [exact Hg1|].
           eapply Forall_impl; [|exact Hg2]. intros c Hc. eapply good_mono; [|exact Hc].
-          intros f (x & Hx & Hf). eapply FI_kid; eassumption.
+          intros f Hf. apply from_kids. exact Hf.
         * rewrite HL. reflexivity.
         * rewrite HL. reflexivity.
     - rewrite Hs. reflexivity.
@@ -339,7 +359,7 @@ Section Top.
     exists o vv,
       chosen_op C ops opname = Some o /\
       coerce_variable_values all_fixed E dt (ao_vardefs o) raw = Ok vv /\
-      (field_in C (ao_body o) (c_field c) \/ exists p, In p frs /\ field_in C (snd p) (c_field c)) /\
+      (exists m, reached C frs (ao_body o) m /\ field_in C m (c_field c)) /\
       coerce_argument_values all_fixed E dt (af_argdefs (c_field c)) (af_args (c_field c)) vv = Ok (c_args c) /\
       exists g, af_cost (c_field c) = Some g /\ g (c_ctx c) (c_args c) <> None.
   Proof.
@@ -351,8 +371,8 @@ Section Top.
     unfold agrees in H.
     destruct (tvisit C E dt skip_zero dc vv frs fuel (ao_body o) _ []) as [[st log]| |]; try (intros []).
     destruct H as (_ & new & Hl & Hg). cbn [app] in Hl. subst new. cbn [snd]. intro Hin.
-    rewrite Forall_forall in Hg. destruct (Hg c Hin) as (Hs & Ha & Hc).
-    exists o, vv. repeat split; assumption.
+    rewrite Forall_forall in Hg. destruct (Hg c Hin) as ((r & m & <- & Hm & Hf) & Ha & Hc).
+    exists o, vv. split; [reflexivity|]. split; [exact Ev|]. split; [exists m; split; assumption|]. split; assumption.
   Qed.
 
   (** jointly with C05: when the document's field selections passed the variable-usage rule (C05's
@@ -363,7 +383,7 @@ Section Top.
     chosen_op C ops opname = Some o ->
     env_ok E = true ->
     has_dup (map vd_name (ao_vardefs o)) = false -> request_ok (ao_vardefs o) raw ->
-    (forall f, field_in C (ao_body o) f \/ (exists p, In p frs /\ field_in C (snd p) f) ->
+    (forall f, (exists m, reached C frs (ao_body o) m /\ field_in C m f) ->
                has_dup (map fst (af_argdefs f)) = false /\
                (forall ad, In ad (af_argdefs f) -> default_ok E (snd ad) = true) /\
                field_usage_ok C E (ao_vardefs o) f = true) ->
